@@ -244,34 +244,6 @@ Definition ctx_of (args : string) : submit_ctx :=
   {| sc_args := args; sc_default_name := "add.uid"; sc_script_dir := "/c/slurm_scripts/uid";
      sc_batch_script := "/c/slurm_scripts/uid/batchscript_uid.sh" |}.
 
-Definition kind_eqb (a b : okind) : bool :=
-  match a, b with KName, KName | KOut, KOut | KErr, KErr => true | _, _ => false end.
-Definition kind_count (k : okind) (is : list item) : nat :=
-  List.length (filter (fun i => match i with IOpt k' _ _ => kind_eqb k k' | IOther _ => false end) is).
-Definition at_most_once (is : list item) : bool :=
-  forallb (fun k => Nat.leb (kind_count k is) 1) [KName; KOut; KErr].
-
-Definition pool : list item :=
-  flat_map (fun k => [IOpt k false "x"; IOpt k false "/tmp/o-%j.txt"; IOpt k true "x"; IOpt k true "/tmp/o-%j.txt"]) [KName; KOut; KErr]
-  ++ [IOther "--time=10"; IOther "-N"; IOther "--no-requeue"].
-
-Fixpoint seqs (n : nat) : list (list item) :=
-  match n with
-  | O => [[]]
-  | S m => [] :: flat_map (fun s => map (fun i => i :: s) pool) (seqs m)
-  end.
-Definition family : list (list item) := filter at_most_once (seqs 3).
-
-Definition options_check (is : list item) : bool :=
-  options_ok (tokens_of is) (sbatch_argv (ctx_of (join_sp (tokens_of is)))) (sc_batch_script (ctx_of "")).
-
-Lemma family_checked : forallb options_check family = true.
-Proof. vm_compute. reflexivity. Qed.
-
-(* finite sweep (bound: sequences of at most 3 items from [pool], each option kind at most once) *)
-Theorem options_once_family : forall is, In is family -> options_check is = true.
-Proof. apply forallb_forall. exact family_checked. Qed.
-
 (* the general shape: user tokens first and untouched, defaults only for what the regexes did not find, script last *)
 Theorem sbatch_argv_shape : forall c,
   exists defaults, sbatch_argv c = split_ws (sc_args c) ++ defaults ++ [sc_batch_script c] /\
@@ -400,3 +372,207 @@ Example parse_examples :
   parse_sacct "123  OUT_OF_ME+  125:0" = SaLine "OUT_OF_ME" 125 /\
   parse_sacct "" = SaNone /\ parse_sacct "sacct: error" = SaGarbage.
 Proof. vm_compute. auto. Qed.
+
+(* ================================================================== user options: the general theorem *)
+Section OptSearch.
+Variables rsh rl : chars.
+Hypothesis Hrsh : word rsh = true.
+Hypothesis Hrl : word rl = true.
+Let rs : chars := " "%char :: rsh.
+
+Definition boundary (B : chars) : Prop := B = [] \/ exists B', B = " "%char :: B'.
+
+Lemma word_cons c l : word (c :: l) = true -> is_space c = false /\ word l = true.
+Proof. unfold word. cbn. rewrite andb_true_iff, negb_true_iff. tauto. Qed.
+
+Lemma nonspace_neq_sp c : is_space c = false -> Ascii.eqb c " " = false.
+Proof. intros H. destruct (Ascii.eqb c " ") eqn:E; [|reflexivity]. apply Ascii.eqb_eq in E. subst c. discriminate H. Qed.
+
+Lemma prefix_word_boundary p : forall acc B, word p = true -> boundary B ->
+  is_prefix Ascii.eqb p (acc ++ B) = is_prefix Ascii.eqb p acc.
+Proof.
+  induction p as [|x p IH]; intros acc B Hp HB; [reflexivity|].
+  apply word_cons in Hp. destruct Hp as [Hx Hp].
+  destruct acc as [|a acc]; cbn.
+  - destruct HB as [-> | [B' ->]]; [reflexivity|]. now rewrite (nonspace_neq_sp _ Hx).
+  - now rewrite IH.
+Qed.
+
+Definition hitb (l B : chars) : bool := match opt_search rs rl l B with Some _ => true | None => false end.
+
+Fixpoint tok_hit (t B : chars) : bool :=
+  match t with
+  | [] => false
+  | c :: r => (is_prefix Ascii.eqb rs B || is_prefix Ascii.eqb rl B) || tok_hit r (c :: B)
+  end.
+
+Lemma hitb_token t : forall B rest, word t = true -> hitb (t ++ rest) B = tok_hit t B || hitb rest (rev t ++ B).
+Proof.
+  induction t as [|c t IH]; intros B rest Hw; [reflexivity|].
+  apply word_cons in Hw. destruct Hw as [Hc Hw].
+  unfold hitb in *. cbn [app opt_search tok_hit]. rewrite Hc. cbn [negb andb].
+  destruct (is_prefix Ascii.eqb rs B || is_prefix Ascii.eqb rl B); [reflexivity|]. cbn [orb].
+  rewrite IH by exact Hw. cbn [rev]. now rewrite <- app_assoc.
+Qed.
+
+Lemma hitb_space rest B : hitb (" "%char :: rest) B = hitb rest (" "%char :: B).
+Proof. reflexivity. Qed.
+
+Lemma tok_hit_boundary t : forall acc B, word t = true -> word acc = true -> boundary B ->
+  tok_hit t (acc ++ B) =
+  (match acc with [] => nonempty t && is_prefix Ascii.eqb rs B | _ => false end) || inside_l rl t acc.
+Proof.
+  induction t as [|c t IH]; intros acc B Ht Hacc HB.
+  - destruct acc; reflexivity.
+  - apply word_cons in Ht. destruct Ht as [Hc Ht].
+    cbn [tok_hit inside_l nonempty]. rewrite (prefix_word_boundary rl acc B Hrl HB).
+    change (c :: acc ++ B) with ((c :: acc) ++ B).
+    rewrite IH; [| exact Ht | unfold word in *; cbn; now rewrite Hc, Hacc | exact HB].
+    destruct acc as [|a acc].
+    + cbn [app]. destruct (is_prefix Ascii.eqb rs B), (is_prefix Ascii.eqb rl []), (inside_l rl t [c]); reflexivity.
+    + apply word_cons in Hacc. destruct Hacc as [Ha _].
+      unfold rs. cbn [app is_prefix]. rewrite Ascii.eqb_sym, (nonspace_neq_sp _ Ha). reflexivity.
+Qed.
+
+Fixpoint Dtok (toks : list string) : bool :=
+  match toks with
+  | [] => false
+  | t :: r => (is_prefix Ascii.eqb rsh (rev (la_of t)) && has_next r) || inside_l rl (la_of t) [] || Dtok r
+  end.
+
+Lemma la_of_append' a b : la_of (String.append a b) = la_of a ++ la_of b.
+Proof. unfold la_of. induction a; cbn; [reflexivity| now rewrite IHa]. Qed.
+
+Lemma hit_join toks : forall B, forallb clean toks = true -> boundary B ->
+  hitb (la_of (join_sp toks)) B = (has_next toks && is_prefix Ascii.eqb rs B) || Dtok toks.
+Proof.
+  induction toks as [|t toks IH]; intros B Hc HB; [reflexivity|].
+  cbn in Hc. apply andb_true_iff in Hc. destruct Hc as [Ht Hc].
+  destruct (clean_ne _ Ht) as [Htne Htw].
+  assert (Hnt : nonempty (la_of t) = true) by (destruct (la_of t); [congruence|reflexivity]).
+  destruct toks as [|t2 toks].
+  - cbn [join_sp Dtok has_next]. rewrite <- (app_nil_r (la_of t)) at 1. rewrite hitb_token by exact Htw.
+    pose proof (tok_hit_boundary (la_of t) [] B Htw eq_refl HB) as E. cbn [app] in E. rewrite E, Hnt.
+    unfold hitb. cbn. rewrite andb_false_r, !orb_false_r. reflexivity.
+  - change (join_sp (t :: t2 :: toks)) with (String.append t (String.append " " (join_sp (t2 :: toks)))).
+    rewrite !la_of_append'. change (la_of " ") with [" "%char]. cbn [app].
+    rewrite hitb_token by exact Htw. rewrite hitb_space.
+    rewrite IH; [| exact Hc | right; eexists; reflexivity].
+    pose proof (tok_hit_boundary (la_of t) [] B Htw eq_refl HB) as E. cbn [app] in E. rewrite E, Hnt.
+    cbn [has_next Dtok andb]. unfold rs at 2. cbn [is_prefix]. rewrite Ascii.eqb_refl. cbn [andb].
+    rewrite (prefix_word_boundary rsh (rev (la_of t)) B Hrsh HB).
+    rewrite andb_true_r.
+    destruct (is_prefix Ascii.eqb rs B), (inside_l rl (la_of t) []), (is_prefix Ascii.eqb rsh (rev (la_of t))), (Dtok (t2 :: toks)); reflexivity.
+Qed.
+
+Lemma hit_join_start toks : forallb clean toks = true ->
+  hitb (la_of (join_sp toks)) [] = Dtok toks.
+Proof.
+  intros H. rewrite hit_join by (auto; now left). unfold rs. cbn. now rewrite andb_false_r.
+Qed.
+End OptSearch.
+
+Lemma split_join_sp toks : forallb clean toks = true -> split_ws (join_sp toks) = toks.
+Proof.
+  unfold split_ws. induction toks as [|t toks IH]; intros H; [reflexivity|].
+  cbn in H. apply andb_true_iff in H. destruct H as [Ht Hc].
+  destruct (clean_ne _ Ht) as [Htne Htw].
+  destruct toks as [|t2 toks].
+  - cbn [join_sp]. rewrite py_split_last by (auto; cbn; exact Htne). cbn. now rewrite str_of_la_of.
+  - change (join_sp (t :: t2 :: toks)) with (String.append t (String.append " " (join_sp (t2 :: toks)))).
+    rewrite !la_of_append'. change (la_of " ") with [" "%char]. cbn [app].
+    rewrite py_split_word by (auto; cbn; exact Htne). cbn [rev app]. rewrite str_of_la_of. f_equal. now apply IH.
+Qed.
+
+Lemma inside_split rl x : forall c v acc, is_prefix Ascii.eqb rl (rev x ++ acc) = true ->
+  inside_l rl (x ++ c :: v) acc = true.
+Proof.
+  induction x as [|a x IH]; intros c v acc H; cbn.
+  - cbn in H. now rewrite H.
+  - rewrite (IH c v (a :: acc)); [now rewrite orb_true_r|]. cbn [rev] in H. now rewrite <- app_assoc in H.
+Qed.
+
+Lemma is_prefix_refl_chars l : is_prefix Ascii.eqb l l = true.
+Proof. induction l; cbn; [reflexivity|]. now rewrite Ascii.eqb_refl. Qed.
+
+Lemma la_of_inj a b : la_of a = la_of b -> a = b.
+Proof. intros H. rewrite <- (str_of_la_of a), <- (str_of_la_of b). now rewrite H. Qed.
+
+(* per token: what the regexes see is what the option grammar says, for tokens in the handled forms *)
+Lemma token_detect k t r : form_ok k t = true ->
+  (is_prefix Ascii.eqb (rev (la_of (short_of k))) (rev (la_of t)) && has_next r)
+  || inside_l (rev (la_of (long_of k))) (la_of t) [] = gives k t r.
+Proof.
+  unfold form_ok. rewrite !andb_true_iff, !negb_true_iff. intros [[[Ha Hb] He] Hi].
+  unfold attached in Ha. unfold gives. rewrite Ha, Hb. cbn [orb andb]. rewrite orb_false_r.
+  fold (ends_with (short_of k) t) in *. fold (inside (long_of k) t) in *.
+  assert (E1 : ends_with (short_of k) t = String.eqb t (short_of k)).
+  { destruct (String.eqb t (short_of k)) eqn:E.
+    - apply String.eqb_eq in E. subst t. destruct k; reflexivity.
+    - destruct (ends_with (short_of k) t); [discriminate He|reflexivity]. }
+  assert (E2 : inside (long_of k) t = starts_with (long_of k) t && negb (String.eqb t (long_of k))).
+  { destruct (inside (long_of k) t) eqn:I.
+    - cbn in Hi. rewrite Hi. destruct (String.eqb t (long_of k)) eqn:E; [|reflexivity].
+      apply String.eqb_eq in E. subst t. destruct k; vm_compute in I; discriminate.
+    - destruct (starts_with (long_of k) t) eqn:S; [|reflexivity].
+      destruct (String.eqb t (long_of k)) eqn:E; [reflexivity|]. exfalso.
+      unfold starts_with in S. apply is_prefix_spec in S; [|intros; apply Ascii.eqb_eq]. destruct S as [rest S].
+      destruct rest as [|c v].
+      + rewrite app_nil_r in S. apply la_of_inj in S. subst t. now rewrite String.eqb_refl in E.
+      + unfold inside in I. rewrite S in I. rewrite inside_split in I; [discriminate|].
+        rewrite app_nil_r. apply is_prefix_refl_chars. }
+  rewrite E1, E2. now rewrite orb_false_r.
+Qed.
+
+Lemma Dtok_occurrences k toks : forallb (form_ok k) toks = true ->
+  Dtok (rev (la_of (short_of k))) (rev (la_of (long_of k))) toks = Nat.ltb 0 (occurrences k toks).
+Proof.
+  induction toks as [|t r IH]; intros H; [reflexivity|].
+  cbn in H. apply andb_true_iff in H. destruct H as [Ht Hr].
+  cbn [Dtok occurrences]. rewrite token_detect by exact Ht. rewrite IH by exact Hr.
+  destruct (gives k t r); cbn; [reflexivity|]. reflexivity.
+Qed.
+
+Lemma find_opt_none k toks : forallb clean toks = true -> forallb (form_ok k) toks = true ->
+  (match find_opt (short_of k) (long_of k) (join_sp toks) with Some _ => false | None => true end)
+  = Nat.eqb (occurrences k toks) 0.
+Proof.
+  intros Hc Hf. unfold find_opt.
+  assert (R : rev (la_of (String.append (short_of k) " ")) = " "%char :: rev (la_of (short_of k))) by (destruct k; reflexivity).
+  rewrite R.
+  assert (Hs : word (rev (la_of (short_of k))) = true) by (destruct k; reflexivity).
+  assert (Hl : word (rev (la_of (long_of k))) = true) by (destruct k; reflexivity).
+  pose proof (hit_join_start _ _ Hs Hl toks Hc) as H. unfold hitb in H.
+  rewrite Dtok_occurrences in H by exact Hf.
+  destruct (opt_search (" "%char :: rev (la_of (short_of k))) (rev (la_of (long_of k))) (la_of (join_sp toks)) []);
+    cbn [option_map]; destruct (occurrences k toks); cbn in *; congruence.
+Qed.
+
+(* For EVERY list of clean tokens in the handled forms: the vector is the user's tokens, untouched and in order,
+   then the worker's own default for exactly those of job-name / output / error the user did not give, then the script *)
+Theorem options_general : forall toks name dir script,
+  forallb clean toks = true -> forms_ok toks = true ->
+  sbatch_argv {| sc_args := join_sp toks; sc_default_name := name; sc_script_dir := dir; sc_batch_script := script |} =
+  toks ++ (if Nat.eqb (occurrences KName toks) 0 then [String.append "--job-name=" name] else [])
+       ++ (if Nat.eqb (occurrences KOut toks) 0 then [String.append "--output=" (String.append dir "/slurm-%j.out")] else [])
+       ++ (if Nat.eqb (occurrences KErr toks) 0 then [String.append "--error=" (String.append dir "/slurm-%j.err")] else [])
+       ++ [script].
+Proof.
+  intros toks name dir script Hc Hf. unfold forms_ok in Hf. cbn [forallb] in Hf.
+  rewrite !andb_true_iff in Hf. destruct Hf as (HJ & HO & HE & _).
+  unfold sbatch_argv. cbn [sc_args sc_default_name sc_script_dir sc_batch_script].
+  rewrite split_join_sp by exact Hc.
+  pose proof (find_opt_none KName toks Hc HJ) as EJ. pose proof (find_opt_none KOut toks Hc HO) as EO.
+  pose proof (find_opt_none KErr toks Hc HE) as EE. cbn [short_of long_of] in EJ, EO, EE.
+  destruct (find_opt "-J" "--job-name=" (join_sp toks)); rewrite <- EJ;
+  destruct (find_opt "-o" "--output=" (join_sp toks)); rewrite <- EO;
+  destruct (find_opt "-e" "--error=" (join_sp toks)); rewrite <- EE; reflexivity.
+Qed.
+
+(* hence every option appears exactly once, when the user gave it at most once *)
+Example options_general_nonvacuous :
+  let toks := ["--time=10"; "-J"; "my.job"; "--error=/tmp/e-%j.err"; "--no-requeue"] in
+  forallb clean toks = true /\ forms_ok toks = true /\ forms_ok ["--job-name"; "x"] = false /\ forms_ok ["-Jx"] = false /\
+  forms_ok ["a-e"; "x"] = false /\
+  sbatch_argv (ctx_of (join_sp toks)) = toks ++ ["--output=/c/slurm_scripts/uid/slurm-%j.out"; "/c/slurm_scripts/uid/batchscript_uid.sh"].
+Proof. vm_compute. repeat split. Qed.
